@@ -1,6 +1,7 @@
 (* Props_C11.v — C11: vertical structure is hydrostatic, ordered and one value per layer. *)
 From Coq Require Import Reals List Lra Sorting.Sorted.
 From TV Require Import Num ListNum ListNumR Model_C11 Proofs_C11.
+From TV Require Import NumIv Reflect.
 Import ListNotations.
 Local Open Scope R_scope.
 
@@ -63,3 +64,15 @@ Theorem C11_density_count : forall (k : R) (P Ts : list R), length Ts = length P
   length (@density R RTNum k P Ts) = length P.
 Proof. exact density_length. Qed.
 Print Assumptions C11_density_count.
+
+(* the executed (interval) instance of the hydrostatic recurrence encloses the real-number instance, layer by layer
+   (altitude, scale height, gravity, thickness) and for the top altitude, when the real side is defined in every layer
+   (Reflect.layers_def: non-zero radius, mass x gravity and pressure, positive pressure ratio) *)
+Theorem C11_layers_enclosed : forall GMI GM RI R0 kI k,
+  encloses GMI GM -> encloses RI R0 -> encloses kI k ->
+  forall PnI PnR, encl_list PnI PnR -> forall TsI TsR, encl_list TsI TsR -> forall msI msR, encl_list msI msR ->
+  forall zI z PjI Pj, encloses zI z -> encloses PjI Pj -> layers_def GM R0 k z Pj PnR TsR msR ->
+  Forall2 encl_row (fst (@layers _ IvTNum GMI RI kI zI PjI PnI TsI msI)) (fst (@layers R RTNum GM R0 k z Pj PnR TsR msR))
+  /\ encloses (snd (@layers _ IvTNum GMI RI kI zI PjI PnI TsI msI)) (snd (@layers R RTNum GM R0 k z Pj PnR TsR msR)).
+Proof. exact layers_transfer. Qed.
+Print Assumptions C11_layers_enclosed.
